@@ -46,3 +46,7 @@ reg('C06', 'propchecks.c06', 'proof', T1[:1], [ASCII, DEPTH, CORR, 'quote remova
 reg('C07', 'propchecks.c07', 'proof', T1[:1], [ASCII, DEPTH, CORR])
 
 reg('C10', 'propchecks.c10', 'proof', T1[:1], [ASCII, CORR])
+
+T7 = [('Bashlex.History.results_eq_solo', QC), ('Bashlex.History.result_get', QC), ('Bashlex.Q.run_touched_irrelevant', QC), ('Bashlex.Q.run_touched', QC),
+      ('Bashlex.Q.run_frame', QC), ('Bashlex.parseFrom_touched_irrelevant', QC), ('Bashlex.runParser_touched_irrelevant', QC)]
+reg('C18', 'propchecks.c18', 'proof', T7, [ASCII, DEPTH, CORR, 'the only module-level state the model has is the set of sh_syntaxtab keys looked up; that the implementation has no other is observed (snapshots, fresh-interpreter comparison) and, statically, by the C20 write-site obligation'])
